@@ -139,6 +139,9 @@ def c10(work, tier, seed):
                     phs = phases if tier == "thorough" else [phases[(stable_hash(cls + a + tr) + ci) % 5], "init"]
                     for ph in sorted(set(phs)):
                         add(ep, cls, cfg(a, tls, buf), tr, ph)
+                    # the same input from a client that has stopped reading while its host keeps sending
+                    if not tls and (tier == "thorough" or (stable_hash(cls + tr) + ci) % 3 == 0):
+                        add(ep, cls, cfg(a, tls, buf), tr, "stalled")
         elif ep == "legacy-order":
             for a in ("openid", "ntlm"):
                 add(ep, cls, cfg(a), "legacy")
